@@ -381,6 +381,11 @@ def r9_headers_only_with_headers(ctx):
                 ctx.touch(ROWS, qual)
                 ctx.ob("C13.R9", ROWS, qual, k, f"{c.name}'s headers guard rejects every `no headers` marker its producer can send", ok,
                        detail={"guard": "truthiness" if truthy else "is not None" if not_none else [x for x, _ in g], "producer values": sorted(prod)})
+                # ... and accepts every map the producer computes, the EMPTY one included (all named columns dropped): under a truthiness guard the attribute would not be
+                # set and Dense_.__getattr__ would show the wrapped row's map instead
+                if "built" in prod and c.name == "KeepDense":
+                    ctx.ob("C13.R9", ROWS, qual, k, f"{c.name} sets the header map its producer computed even when that map is empty (guard `is not None`, marker None)", not_none and "empty" not in prod,
+                           detail={"guard": "truthiness" if truthy else "is not None" if not_none else [x for x, _ in g], "producer values": sorted(prod)}, stmt=f"{c.name}: empty computed map is set")
     ctx.floor("C13.R9", "construction sites of header-carrying row wrappers", n, 2)
 
 
@@ -656,6 +661,11 @@ def r17_categorical_expansion(ctx, rule="C13.R17"):
             (isinstance(a, ast.Name) and all(isinstance(v, (ast.List, ast.ListComp)) or (isinstance(v, ast.Call) and call_name(v) == "list") for v in assigned_value(fn, a.id)) and bool(assigned_value(fn, a.id)))
         ctx.ob(rule, ROWS, "EncodeCatRows._encode_collection", c_, "the keys argument of catset is a list (a key, also a string key, is wrapped)", listy, detail={"argument": unparse(a)})
     ctx.floor(rule, "calls of catset from the row loop", m, 1)
+    # the scan for categorical cells treats the row VIEWS (Dense / Sparse ABCs) like the plain containers -- a lazy first row must not make the filter a no-op
+    ck = [x for x in ast.walk(fn) if isinstance(x, ast.FunctionDef) and x.name == "catkey"]
+    tests = [unparse(t.args[1]) for c_ in ck for t in ast.walk(c_) if isinstance(t, ast.Call) and call_name(t) == "isinstance" and len(t.args) == 2]
+    ctx.ob(rule, ROWS, "EncodeCatRows._encode_collection", ck[0] if ck else fn, "the scan for categorical cells looks into Dense and Sparse row views as well as lists, tuples and dicts",
+           any("Dense" in t for t in tests) and any("Sparse" in t for t in tests), detail={"types scanned": tests}, stmt="catkey scans row views")
 
 
 def _drop_member(tree, cname, member):
@@ -721,6 +731,8 @@ def _unguarded_fast_iter(tree):
 
 
 CONTROLS = [
+    ("KeepDense sets only non-empty header maps", ROWS, M.replace_expr("KeepDense.__init__", "headers is not None", "headers"), "C13.R9"),
+    ("EncodeCatRows scans plain containers only", ROWS, M.replace_expr("EncodeCatRows._encode_collection", "isinstance(o, (list, tuple, Dense))", "isinstance(o, (list, tuple))"), "C13.R17"),
     ("a name's position falls through into the view's index shift", ROWS, M.delete_stmt("DropOne.__getitem__", lambda st: isinstance(st, ast.Return), nth=0), "C13.R16"),
     ("kept names numbered in the order the header map lists them", ROWS, M.replace_expr("DropRows.make_drop_row_args", "{h: external_indexes[i] for h, i in headers if i in external_indexes}", "dict(zip((h for h, i in headers if selects[i]), count()))"), "C13.R12"),
     ("sparse one-hot keyed by the bit", ROWS, M.replace_stmt("EncodeCatRows._encode_collection", M.text_has("o[f'{_k}_{i}'] = v"), "if i != 0: o[f'{_k}_{v}'] = i"), "C13.R17"),
